@@ -47,7 +47,6 @@ use std::sync::atomic::{AtomicUsize, Ordering};
 use std::task::{Context, Poll};
 use vf_kit::engine::*;
 
-use crate::c30::fail_result;
 use crate::walk::{self, Finding, Judged, Program, Purpose, WalkCase, WalkFail};
 
 pub struct C53;
@@ -284,7 +283,7 @@ impl Property for C53 {
 fn judge(case: &WalkCase) -> Judged {
     let run = match run_case(case) {
         Ok(r) => r,
-        Err(e) => return Judged::clean(fail_result(e)),
+        Err(e) => return crate::c30::fail_judged(e, case),
     };
     let mut labels: Vec<String> = vec![];
     let mut names: Vec<String> = run.ops.iter().map(|o| format!("op:{}", o.name)).collect();
